@@ -938,6 +938,46 @@ func (t *Term) windowOp(ps [][]int) {
 	}
 }
 
+// validXColor: the forms XParseColor accepts - #RGB with 1-4 hex digits per
+// component, rgb:R/G/B, or a colour name.
+func validXColor(s string) bool {
+	isHex := func(x string) bool {
+		if x == "" {
+			return false
+		}
+		for _, c := range x {
+			if !(c >= '0' && c <= '9' || c >= 'a' && c <= 'f' || c >= 'A' && c <= 'F') {
+				return false
+			}
+		}
+		return true
+	}
+	switch {
+	case strings.HasPrefix(s, "#"):
+		h := s[1:]
+		return isHex(h) && (len(h) == 3 || len(h) == 6 || len(h) == 9 || len(h) == 12)
+	case strings.HasPrefix(s, "rgb:"):
+		parts := strings.Split(s[4:], "/")
+		if len(parts) != 3 {
+			return false
+		}
+		for _, p := range parts {
+			if !isHex(p) || len(p) > 4 {
+				return false
+			}
+		}
+		return true
+	case s == "":
+		return false
+	}
+	for _, c := range s {
+		if !(c >= 'a' && c <= 'z' || c >= 'A' && c <= 'Z' || c >= '0' && c <= '9' || c == ' ') {
+			return false
+		}
+	}
+	return true
+}
+
 func (t *Term) oscDone() {
 	s := string(t.osc)
 	num, rest := s, ""
@@ -967,6 +1007,9 @@ func (t *Term) oscDone() {
 			t.Pen.LinkID = ""
 		}
 	case 12:
+		if !validXColor(rest) {
+			t.errf("OSC 12 %q: not a colour specification (#rgb.., rgb:r/g/b or a name)", rest)
+		}
 		t.CursorColor = rest
 	case 112:
 		t.CursorColor = ""
